@@ -13,17 +13,27 @@ KIND = "path"
 SPECS = ["C12"]
 LEAN_MODULES = ["TbotVerif.Props.C12"]
 THEOREMS = [
-    "C12.spec_holds_partial", "C12.tpath_run_eq_ref", "C12.pure_spec",
-    "C12.withSuffix_quirk_witness", "C12.withSuffix_inconsistent_iff",
-    "C12.parents_eq_iterate_parent", "C12.parentsList_length", "C12.parentsGet_neg",
-    "C12.tp_name", "C12.tp_parts", "C12.tp_isAbsolute", "C12.tp_match",
-    "C12.tp_withName", "C12.tp_withStem", "C12.tp_withSuffix", "C12.tp_parent", "C12.tp_parentsGet",
-    "C12.tp_parentsList", "C12.tp_parentsSlice", "C12.tp_joinpath", "C12.tp_rtruediv",
-    "C12.tp_relativeTo", "C12.tp_isRelativeTo", "C12.tp_eq_hash",
-    "C12.atHost_wrongHost_iff", "C12.prepareArgs_wrongHost_iff", "C12.escape_wrongHost_iff",
-    "C12.redir_wrongHost_iff", "C12.background_wrongHost_iff", "C12.authKey_wrongHost_iff",
-    "C12.machEq_iff_cloneEq", "C12.cloneEq_equivalence", "C12.clone_eq",
-    "C12.parse_format_roundtrip", "C12.isAbsolute_iff_root",
+    # the property: tbot model = reference (pathlib + host rule) for every well-formed case outside the quirk
+    "C12.spec_holds_partial", "C12.tpath_run_eq_ref", "C12.pure_spec", "C12.withSuffix_quirk_witness",
+    "PathM.withSuffix_inconsistent_iff", "PathM.parse_format_roundtrip",
+    # TPath.op = PurePath.op, operation by operation
+    "PathM.tp_name", "PathM.tp_suffix", "PathM.tp_suffixes", "PathM.tp_stem", "PathM.tp_parts",
+    "PathM.tp_isAbsolute", "PathM.tp_match", "PathM.tp_cmp", "PathM.tp_withName", "PathM.tp_withStem",
+    "PathM.tp_withSuffix", "PathM.tp_withSuffix_raw", "PathM.tp_parent", "PathM.tp_parentsLen",
+    "PathM.tp_parentsGet", "PathM.tp_parentsList", "PathM.tp_parentsSlice", "PathM.tp_new", "PathM.tp_joinpath",
+    "PathM.tp_truediv", "PathM.tp_rtruediv", "PathM.tp_relativeTo", "PathM.tp_isRelativeTo",
+    "PathM.relativeTo_isRelativeTo", "C12.tp_eq_hash",
+    # parents = iterate parent
+    "C12.parents_eq_iterate_parent", "C12.parentsList_length", "C12.parentsGet_neg", "C12.isAbsolute_iff_root",
+    # host decision logic
+    "PathM.prepareArgs_eq", "PathM.prepareArgs_wrongHost_iff", "C12.new_wrongHost_iff",
+    "C12.joinpath_wrongHost_iff", "C12.truediv_wrongHost_iff", "C12.rtruediv_wrongHost_iff",
+    "C12.relativeTo_wrongHost_iff", "C12.isRelativeTo_wrongHost_iff", "PathM.atHost_wrongHost_iff",
+    "PathM.escape_wrongHost_iff", "PathM.redir_wrongHost_iff", "PathM.background_wrongHost_iff",
+    "PathM.authKey_wrongHost_iff",
+    # Machine.__eq__ = clone-equivalence
+    "PathM.machEq_iff_cloneEq", "PathM.cloneEq_equivalence", "PathM.cloneEq_clone", "PathM.cloneEq_fresh",
+    "PathM.clone_eq", "PathM.Mach.eq_trans",
 ]
 QUICK_N, THOROUGH_N = 9000, 60000
 QUICK_BUDGET, THOROUGH_BUDGET = 45, 900
